@@ -9,7 +9,9 @@ MANIFEST = dict(
          "(nonce, record list) inputs whose fields have the same extents never share a tag), "
          "C17_fetched_value_is_what_was_written / C17_unmodified_value_bound_to_key_and_version / "
          "C17_value_bitflip_rejected (stored values), C17_fresh_nonce / C17_replayed_response_rejected / "
-         "C17_client_server_separated, C17_same_shape_modification_detected, C17_truncation_detected, and "
+         "C17_client_server_separated, C17_replayed_reply_refused_in_fresh_history (premise nonces_fresh: every read "
+         "nonce of a client is 32 bytes and not used before in the history; evaluated in Coq on the nonces the harness "
+         "observes on the wire), C17_same_shape_modification_detected, C17_truncation_detected, and "
          "C17_collisions_are_known (every collision of the MACed bytes is one of three framing classes).  The "
          "property at full strength is false of the code (nothing is length-delimited): C17_refuted_* give the "
          "witnesses, which the harness replays on the real ExternalPersistHelper / compute_shared_hmac / "
@@ -17,12 +19,19 @@ MANIFEST = dict(
          "class listed in KNOWN_FINDINGS.json).  Correspondence on every run: the bytes the model serialises "
          "(vm_compute) through a reference HMAC-SHA256 must equal the tags / stored bytes / accept-reject answers of "
          "the real functions; a monitor applies bit flips, swaps, truncations, reorderings, replays, merges, splits "
-         "and boundary shifts to random inputs and requires rejection, classifying every accepted one.",
+         "and boundary shifts to random inputs and requires rejection, classifying every accepted one; the client read "
+         "paths (PrivClient::get, Client::get via vls-frontend's lss client, ExternalPersistHelper::new_nonce/check_hmac, "
+         "vls-util init_state as called by vlsd's signer) run against an in-process tonic storage service behind a "
+         "recording/replaying man in the middle: nonces 32 bytes and pairwise distinct, replayed and other-nonce replies "
+         "refused, genuine replies accepted.",
     design="§4 C17, §5 F6",
     note=lib.TB + "Idealisation: HMAC-SHA256 is injective on its message for a fixed key (premise of the binding theorems; the "
          "refutations need no premise); unforgeability is not expressed.  Modelled, not verified: bitcoin_hashes "
-         "HmacEngine; the storage client's Value struct is redeclared in the harness (util.rs itself is compiled "
-         "from the tree under test); the 'crypt' feature of the storage client (off in vls-frontend/vlsd) is not exercised.",
+         "HmacEngine, tonic transport; the storage service in the harness is an in-memory stand-in for lssd (same tag "
+         "computation through the library's compute_shared_hmac); vlsd's private make_external_persist glue is "
+         "replicated (keys manager persistence key + ECDH), init_state itself is the real one; unpredictability of "
+         "the nonce source is not checked (only length and non-repetition over the run); the 'crypt' feature of the "
+         "storage client (off in vls-frontend/vlsd) is not exercised.",
     technique="Coq proof (injectivity of serialisations by induction over record lists) + vm_compute correspondence "
               "with the Rust implementation + refutation witnesses replayed on the implementation",
 )
@@ -31,7 +40,9 @@ PINNED = ["C17_accepted_value_is_tagged", "C17_value_binding_outside_known", "C1
           "C17_unmodified_value_bound_to_key_and_version", "C17_value_bitflip_rejected", "C17_binding_outside_known",
           "C17_known_classes", "C17_collisions_are_known", "C17_same_shape_modification_detected",
           "C17_truncation_detected", "C17_fresh_nonce", "C17_replayed_response_rejected",
-          "C17_client_server_separated", "C17_refuted_value_key_version_shift", "C17_refuted_set_key_version_shift",
+          "C17_client_server_separated", "C17_reply_for_other_nonce_refused",
+          "C17_replayed_reply_refused_in_fresh_history", "C17_stale_reply_accepted_without_fresh_nonce",
+          "C17_refuted_value_key_version_shift", "C17_refuted_set_key_version_shift",
           "C17_refuted_set_merge_split", "C17_refuted_nonce_key_shift", "C17_refuted_put_tag_answers_read",
           "C17_set_binding_refuted", "C17_nonvacuous"]
 
@@ -116,6 +127,9 @@ def run(res):
     n_mon = 120 if quick else 3000
     gen = lib.run_harness("hmac", "gen", res.seed, n_gen, res.tier)
     mon = lib.run_harness("hmac", "mon", res.seed, n_mon, res.tier)
+    n_net = 60 if quick else 1500
+    net = lib.run_harness("hmac", "net", res.seed, n_net, res.tier)
+    sessions = net.get("NET", [])
     cases = gen.get("CASE", [])
     colls = mon.get("COLLISION", [])
     stats = [s for s in mon.get("STATS", []) if s.get("domain") == "hmac-mon"][0]
@@ -124,6 +138,7 @@ def run(res):
     # ---- the model's side: what it MACs and what it compares (evaluated inside Coq)
     answers = coq_answers([c["coq"] for c in cases], "c17_gen")
     pair_ans = coq_answers([c["coq"] for c in colls], "c17_pair")
+    nonce_ans = coq_answers([c["coq"] for c in sessions], "c17_nonces")
     pairs = [(a[0], a[1]) for a in answers if a]
     tags = iter(reference_tags(pairs, res.seed, res.tier))
 
@@ -178,6 +193,44 @@ def run(res):
                                "class is not listed in %s" % (cls, c["origin"], listed_src), c))
         else:
             known.setdefault(cls, []).append(c)
+    # ---- reads over the wire: the client read paths behind a recording / replaying man in the middle;
+    #      the premise of C17_replayed_reply_refused_in_fresh_history (nonces_fresh, evaluated in Coq on the
+    #      nonces seen on the wire) and its conclusion, on the implementation
+    NET_INPUT = {"replayed-reply-accepted": "a reply recorded at an earlier read is accepted as the answer to a later read",
+                 "reply-under-other-nonce-accepted": "a reply made under another nonce than the one of the request is accepted",
+                 "nonce-length": "a read request carries a nonce that is not 32 bytes long",
+                 "nonce-reused": "a read request carries a nonce that this client used before",
+                 "nonce-not-passed-through": "the nonce on the wire is not the one the caller handed to Client::get",
+                 "genuine-reply-wrong-state": "an accepted genuine reply is not the current stored state"}
+    net_reads = 0
+    net_nontrivial = set()
+    net_violations = []
+    for c, a in zip(sessions, nonce_ans):
+        coq_fresh = bool(a[0][0])
+        reads = [o for o in c["ops"] if o["op"] == "read"]
+        net_reads += len(reads)
+        if any(o["reply"] != "genuine" for o in reads) and any(o["reply"] == "genuine" for o in reads):
+            net_nontrivial.add(json.dumps(c["ops"], sort_keys=True))
+        if coq_fresh != c["nonces_fresh"]:
+            machinery.append(("harness and Coq (nonces_fresh) judge a nonce history differently", c))
+        kinds = []
+        for f in c["findings"]:
+            if f["kind"] in NET_INPUT and f["kind"] not in kinds:
+                kinds.append(f["kind"])
+        if not coq_fresh and not any(k.startswith("nonce-") for k in kinds):
+            kinds.append("nonce-reused")
+        # the strongest first: an accepted replay is the rollback itself
+        kinds.sort(key=lambda k: list(NET_INPUT).index(k))
+        for k in kinds[:1]:
+            f = sorted([f for f in c["findings"] if f["kind"] == k], key=lambda f: not f.get("rolled_back"))[:1]
+            net_violations.append((0 if f and f[0].get("rolled_back") else 1, len(net_violations), ("%s (client path %s; premise nonces_fresh of C17_replayed_reply_refused_in_fresh_history "
+                               "evaluates to %s on the nonces this client sent)" % (NET_INPUT[k], c["path"], str(coq_fresh).lower()),
+                               dict(strip(c), finding=f[0] if f else None, origin="net:" + k, **{"class": c["path"]}))))
+        for f in c["findings"]:
+            if f["kind"] not in NET_INPUT:
+                machinery.append(("the genuine reply of the storage service was not accepted / the read failed (%s, client path %s)"
+                                  % (f["kind"], c["path"]), dict(strip(c), finding=f)))
+    violations = [v for _, _, v in sorted(net_violations, key=lambda x: x[:2])] + violations
     for w in mon.get("WITNESS", []):
         if not w["collides"]:
             machinery.append(("refutation witness %d of Props/C17.v (%s) does not collide on the implementation: the "
@@ -196,10 +249,11 @@ def run(res):
     shown = set()
     for what, c in violations:
         key = (c.get("class"), c.get("bytes_equal"), c.get("origin", "").split(":")[0])
-        if key in shown or len(shown) >= 4:
+        if key in shown or len(shown) >= 8:
             continue
         shown.add(key)
-        res.violation(what, {"domain": "hmac-mon", "seed": res.seed, "case": strip(c)})
+        res.violation(what, {"domain": "hmac-net" if str(c.get("origin", "")).startswith("net:") else "hmac-mon",
+                             "seed": res.seed, "case": strip(c)})
     if not violations:
         for c, model in bad[:3]:
             res.violation("the real function disagrees with HMAC-SHA256 over the bytes of Model/Hmac.v "
@@ -217,9 +271,10 @@ def run(res):
                             CLASS_THEOREMS[cls], listed_src.split(" ")[0]))
 
     tried = sum(stats["tried"].values())
+    net_stats = [x for x in net.get("STATS", []) if x.get("domain") == "hmac-net"]
     cov.update({
-        "evaluations": len(cases) + tried,
-        "distinct_nontrivial": len(reached) + len({c["coq"] for c in colls}),
+        "evaluations": len(cases) + tried + net_reads,
+        "distinct_nontrivial": len(reached) + len({c["coq"] for c in colls}) + len(net_nontrivial),
         "rule": "gen: per case a secret (0,1,31,32,33,64,65 bytes), nonce ([1],[2],empty,31,32,33 bytes, zeros), 0-5 "
                 "records with UTF-8 keys (0,1,2,31,32,33,40-80 bytes, multi-byte chars, NUL), versions (0,1,255,256,2^32-1,"
                 "2^32,2^63-1,2^63,2^64-2,2^64-1, ASCII-looking), values around SHA-256 block boundaries; kinds: shared tag "
@@ -228,8 +283,19 @@ def run(res):
                 "process_value_from_get on honest / short / mutated / re-framed bytes.  Non-trivial: the case reaches a tag "
                 "comparison (stored >= 32 bytes, received tag of 32 bytes) or produces a tag; distinct by full input. "
                 "mon: %d base inputs x the modifications listed in harness_stats.tried, each verified with every real "
-                "verifier; every accepted modification is a distinct collision case counted here" % n_mon,
-        "samples": [strip(cases[0]), strip(cases[1]), strip(cases[3])] + [strip(c) for c in colls[:2]],
+                "verifier; every accepted modification is a distinct collision case counted here.  net: %d sessions "
+                "(one client identity each) over PrivClient put/get, vls-frontend lss::Client + "
+                "ExternalPersistHelper::new_nonce/check_hmac, and vls-util init_state (the composition of vlsd's signer), "
+                "against an in-process tonic storage service behind a man in the middle; per session 6-12 operations from "
+                "{put next versions, genuine read, read answered with a reply recorded at an earlier read, read forwarded "
+                "under another nonce}; non-trivial: the session has a genuine and an attacked read; distinct by operation "
+                "list incl. the nonces sent (which come from the implementation's OS randomness, not from VERIF_SEED)"
+                % (n_mon, n_net),
+        "samples": [strip(cases[0]), strip(cases[1]), strip(cases[3])] + [strip(c) for c in colls[:2]]
+                   + [strip(c) for c in sessions[:2]],
+        "net_sessions": len(sessions),
+        "net_reads_on_wire": net_reads,
+        "net_nonce_histories_fresh_in_coq": sum(1 for a in nonce_ans if a[0][0]),
         "traces_validated_against_impl": len(cases),
         "correspondence_disagreements": len(bad),
         "monitor_modifications_tried": tried,
@@ -239,12 +305,15 @@ def run(res):
         "machinery_failures": len(machinery),
         "known_classes_listed": sorted(listed),
         "known_classes_source": listed_src,
-        "harness_stats": gen.get("STATS", []) + mon.get("STATS", []),
+        "harness_stats": gen.get("STATS", []) + mon.get("STATS", []) + net_stats,
     })
     res.assumptions = [
         "HMAC-SHA256 with a fixed key is injective on its message (idealisation; premise InjectiveMac of the binding "
         "theorems; the refutations hold for every MAC)",
         "a tag 'the signer produced' is modelled as a value of the mac function; unforgeability is not expressed",
+        "read nonces are fresh (32 bytes, not used before by this client in this history): premise nonces_fresh of "
+        "C17_replayed_reply_refused_in_fresh_history, evaluated in Coq on the nonces observed on the wire in this run "
+        "(bounded by the sessions run; unpredictability of the nonce source is not checked)",
         "versions are u64 (vls-core) / the same 64 bits as i64 (storage client)",
         "the correspondence is differential testing: bounded by the generator described in coverage.rule",
         "the storage client's util.rs is built without the 'crypt' feature, as vls-frontend / vlsd / vls-proxy build it",
